@@ -222,6 +222,15 @@ def build(v, path="?"):
             data[k] = build(x, name + "." + k)
         return o
     if "$opaque" in v:
+        if v["$opaque"] in STUBS:
+            key = (v["$opaque"], v["id"])
+            if key not in OBJS:
+                OBJS[key] = STUBS[v["$opaque"]](v["id"], LOG, {k: build(x, path) for k, x in (v.get("ghost") or {}).items()})
+            return OBJS[key]
+        if v["$opaque"] == "Kwargs":
+            if (v.get("ghost") or {}).get("empty"):
+                return {}
+            return {"__kw__": v["id"]}
         return OpaqueVal(v["$opaque"], v["id"])
     if "$method" in v:
         return ("$method", v["$method"], v.get("of"))
@@ -238,7 +247,15 @@ class OpaqueVal:
         self.ident = ident
 
     def __call__(self, *a, **k):
-        LOG.append({"path": "callback:%s" % self.ident, "args": a, "kwargs": k})
+        ent = {"path": "callback:%s" % self.ident, "cls": None, "method": "__call__", "fn": self, "args": a,
+               "kwargs": k}
+        hook = NATIVE_ENV.get("__state_hook__")
+        if hook is not None:
+            try:
+                ent["state"] = hook()
+            except Exception:       # noqa
+                pass
+        LOG.append(ent)
         return None
 
     def __eq__(self, o):
